@@ -144,11 +144,11 @@ public:
         }
         if (r != NULL)
         {
-            delete (r);
+            delete[] r;
         }
         if (r_ != NULL)
         {
-            delete (r_);
+            delete[] r_;
         }
     }
     inline void computeR(int N)
